@@ -113,7 +113,14 @@ impl Decoder for Codec {
                     }
                 }
                 DecodeState::PublishHeader(fixed) => {
+                    // publish header must fit into the frame
+                    if fixed.remaining_length < 2 {
+                        return Err(DecodeError::InvalidLength);
+                    }
                     if let Some(hdr_len) = decode::publish_size(src, fixed.first_byte)? {
+                        if hdr_len > fixed.remaining_length {
+                            return Err(DecodeError::InvalidLength);
+                        }
                         if src.len() < hdr_len as usize {
                             return Ok(None);
                         }
